@@ -33,7 +33,7 @@ type Input struct {
 	Stream string `json:"stream"` // sync | hold | writeback
 	Keys   int    `json:"keys"`
 	Long   bool   `json:"long_keys,omitempty"` // keys of 130+ bytes
-	Family int    `json:"family,omitempty"`    // key names form a chain of proper string prefixes: 1 = key 0 is the shortest, 2 = key 0 is the longest
+	Family int    `json:"family,omitempty"`    // key names form a chain: 1 = proper string prefixes, key 0 the shortest; 2 = the same, key 0 the longest; 3 = the cache's own Badger prefix repeated in front of the name
 	Ops    []Op   `json:"ops"`
 }
 
@@ -125,6 +125,7 @@ var (
 	longKeys  bool
 	keyFamily int
 	keyCount  int
+	keyPrefix string // the Badger prefix of the cache of the current case
 )
 
 // keyName: "k<i>" normally.  In a key family every name is a proper string prefix of the next longer one
@@ -137,6 +138,9 @@ func keyName(i int) string {
 		return "k" + strings.Repeat("0", i)
 	case keyFamily == 2:
 		return "k" + strings.Repeat("0", keyCount-1-i)
+	case keyFamily == 3:
+		// the cache's own Badger prefix in front of the name, i times: "k", "<prefix>k", "<prefix><prefix>k"
+		return strings.Repeat(keyPrefix, i) + "k"
 	}
 	return "k" + strconv.Itoa(i)
 }
@@ -147,6 +151,8 @@ func keyIdx(k string) int {
 		return len(k) - 1
 	case keyFamily == 2:
 		return keyCount - len(k)
+	case keyFamily == 3:
+		return strings.Count(k, keyPrefix)
 	}
 	i, _ := strconv.Atoi(strings.TrimRight(strings.TrimPrefix(k, "k"), "_"))
 	return i
@@ -258,6 +264,7 @@ func run(in Input) (res lib.Result) {
 		keyFamily = 0
 	}
 	r := &rig{prefix: fmt.Sprintf("c%d:", caseSeq), entered: make(chan int, 1)}
+	keyPrefix = r.prefix
 	r.newCache()
 	nkeys := in.Keys
 	if nkeys < 1 {
@@ -571,8 +578,8 @@ func gen(r *rand.Rand, idx int, tier string) Input {
 		return genMany(r)
 	}
 	in := Input{Keys: lib.Range(r, 2, 3)}
-	if lib.Chance(r, 0.4) {
-		in.Family = lib.Range(r, 1, 2)
+	if lib.Chance(r, 0.5) {
+		in.Family = lib.Range(r, 1, 3)
 	}
 	switch {
 	case idx%5 == 3:
